@@ -34,6 +34,10 @@ CONSTANTS
   SwapAmounts = {}
   MaxRej = 0
   Sample = TRUE
+  InitIbc = 0
+  DeployExtra = {}
+  HookVariants = {}
+  UpgradeTo = {}
   MathMaxIn = 200
   MathScales = {0, 1, 2, 3}
 CONSTRAINT GenConstraint
